@@ -1818,7 +1818,7 @@ Section FunctionSim.
     assert (Tp : s_tr σp = []) by (rewrite T3, T2, T1; reflexivity).
     assert (Pp : s_pos σp = 0) by (rewrite P3, P2, P1; reflexivity).
     (* f := lambda: [...][-1] *)
-    set (fbody := Subscript (EList (NamedExpr retv cnone :: (if ru then [NamedExpr rflag cfalse] else []) ++ b' ++ [Name retv])) (cint (-1))).
+    set (fbody := Subscript (EList (NamedExpr retv cnone :: (if ru then [NamedExpr rflag cfalse] else []) ++ b' ++ [Name retv])) minus1).
     set (σf := setv σp "f" (VFun fbody)).
     assert (Hdef : Ev (MExpr (NamedExpr "f" (Lambda [] [] None [] [] None [] fbody))) σp (VFun fbody, σf)).
     { exists 2. reflexivity. }
